@@ -135,7 +135,7 @@ def check_phasor(L, w, planes, wavelength):
     return out
 
 
-def check_equiv(L, wa, wb, pre_a=None, pre_b=None):
+def check_equiv(L, wa, wb, pre_a=None, pre_b=None, rtol=None):
     """Two propagated wavefronts agree on every sample that ALL fields of both evaluate.  A field of the
     input wavefront whose window missed the output altogether was evaluated nowhere."""
     out = {'premise': True}
@@ -156,7 +156,7 @@ def check_equiv(L, wa, wb, pre_a=None, pre_b=None):
     out['ok'] = True
     if common.any():
         err = float(np.max(np.abs(fa[common] - fb[common])))
-        out['ok'] = err <= RTOL * ref
+        out['ok'] = err <= (RTOL if rtol is None else rtol) * ref
         out['detail'] = 'max |carrier - eager twin| = %.3g on %d common samples (max |field| %.3g)' % (err, common.sum(), ref)
     # exactly zero outside the union of its windows
     fpub = wa.field
@@ -224,10 +224,7 @@ def expected_shift(elements, z, wavelength, du, oversample):
             r += z * e[1] / du[0] * oversample
             c -= z * e[2] / du[1] * oversample
         else:
-            (a, b), (d1, d0) = e[1], e[2]
-            dist = (wavelength - d0) / d1
-            x = dist / np.sqrt(1 + a * a)
-            y = a * x + b
+            x, y, _ = dispersive_xy(e[1], e[2], wavelength)
             # a dispersive element displaces the image by (x, y) metres in the focal plane: x along columns, y along -rows
             r -= y / du[0] * oversample
             c += x / du[1] * oversample
@@ -242,7 +239,8 @@ def check_shift(L, w, elements, z, du, oversample):
     er, ec = expected_shift(elements, z, w.wavelength, du, oversample)
     for f in w.data:
         gr, gc = f.shift(z=z, wavelength=w.wavelength, pixelscale=du, oversample=oversample, indexing='ij')
-        tol = 1e-9 * max(abs(er), abs(ec), 1e-3)
+        high = any(e[0] == 'disp' and (len(e[1]) > 2 or len(e[2]) > 2) for e in elements)      # numerically solved by lentil
+        tol = (1e-6 if high else 1e-9) * max(abs(er), abs(ec), 1e-3)
         if abs(gr - er) > tol or abs(gc - ec) > tol:
             out['ok'] = False
             out['detail'] = 'Field.shift gives (row %.9g, col %.9g) samples, statement gives (row %.9g, col %.9g)' % (gr, gc, er, ec)
@@ -285,8 +283,78 @@ def check_trace(L, d, wavelength):
     span = abs(wavelength - disp[-1]) + 1e-300
     out['on_trace'] = abs(y - ytr) <= 1e-9 * max(abs(ytr), abs(x), 1e-12)
     out['arc_ok'] = abs(lam - wavelength) <= 1e-6 * span
+    out['side'] = 'blue' if (wavelength - disp[-1]) < 0 else 'red'
+    out['negative_arc'] = bool(arc < 0)
     out['detail'] = 'x=%.6g y=%.6g trace(x)=%.6g; dispersion(arc length %.6g)=%.9g, wavelength %.9g' % (x, y, ytr, arc, lam, wavelength)
     return out
+
+
+def h_layout(L, a, layout):
+    """The same values in another memory layout (Fortran order, a transposed view, a strided view of a larger map,
+    a crop of a larger map): array contents a caller may legitimately hand over."""
+    a = np.asarray(a)
+    if layout == 'F':
+        return np.asfortranarray(a)
+    if layout == 'T':
+        return np.ascontiguousarray(a.T).T
+    if layout == 'strided':
+        big = np.zeros(tuple(2 * n for n in a.shape), dtype=a.dtype)
+        v = big[tuple(slice(None, None, 2) for _ in a.shape)]
+        v[...] = a
+        return v
+    if layout == 'crop':
+        big = np.full(tuple(n + 3 for n in a.shape), 7.0, dtype=a.dtype)
+        v = big[tuple(slice(1, 1 + n) for n in a.shape)]
+        v[...] = a
+        return v
+    return np.array(a, copy=True)
+
+
+def dispersive_xy(trace, dispersion, wavelength):
+    """Independent solution of the statement's clause: arc length d with dispersion(d) = wavelength (the root nearest
+    the reference, d = 0), then the point of the trace polynomial at signed arc length d from x = 0."""
+    import scipy.optimize
+    trace = np.asarray(trace, dtype=float)
+    disp = np.asarray(dispersion, dtype=float)
+    poly = disp.copy()
+    poly[-1] -= wavelength
+    poly = np.trim_zeros(poly, 'f')
+    roots = np.roots(poly)
+    real = roots[np.abs(roots.imag) <= 1e-9 * np.maximum(1.0, np.abs(roots.real))].real
+    d = float(real[np.argmin(np.abs(real))])
+    der = np.polyder(trace)
+
+    def arc(x):
+        return scipy.integrate.quad(lambda t: np.sqrt(1 + np.polyval(der, t) ** 2), 0.0, x)[0]
+    if d == 0:
+        x = 0.0
+    else:
+        lo, hi = (0.0, d) if d > 0 else (d, 0.0)        # |x| <= |arc length|
+        x = scipy.optimize.brentq(lambda t: arc(t) - d, lo * 1.0000001, hi * 1.0000001, xtol=1e-18, rtol=1e-14)
+    return float(x), float(np.polyval(trace, x)), d
+
+
+def dispersion_well_posed(dispersion, wavelength):
+    """The wavelength is reached at a real arc length, and that root is well separated from every other one (otherwise
+    "the arc length that the dispersion polynomial maps to the wavelength" is not unique and any solver's answer is right)."""
+    poly = np.asarray(dispersion, dtype=float).copy()
+    poly[-1] -= wavelength
+    poly = np.trim_zeros(poly, 'f')
+    if poly.size < 2:
+        return False
+    roots = np.roots(poly)
+    real = np.sort(np.abs(roots[np.abs(roots.imag) <= 1e-9 * np.maximum(1.0, np.abs(roots.real))].real))
+    if real.size == 0:
+        return False
+    others = np.sort(np.abs(roots))
+    return bool(others.size == 1 or others[1] >= 5 * real[0])
+
+
+def h_dispersive_ramp(L, m, trace, dispersion, wavelength, z, dx):
+    """OPD ramp (on the global mask m) equivalent to a dispersive element: displacement (X, Y) metres in the focal
+    plane is what Tilt(x=-Y/z, y=-X/z) gives."""
+    X, Y, _ = dispersive_xy(trace, dispersion, wavelength)
+    return h_segment_ramp(L, m, [[-Y / z, -X / z]], dx)
 
 
 def h_refit(L, plane, add_opd):
@@ -299,6 +367,8 @@ def h_refit(L, plane, add_opd):
 
 HELPERS = {
     'h.refit': h_refit,
+    'h.layout': h_layout,
+    'h.dispersive_ramp': h_dispersive_ramp,
     'h.global_mask': h_global_mask,
     'h.segment_ramp': h_segment_ramp,
     'check.views': check_views,
@@ -761,6 +831,8 @@ class TiltHooks(Hooks):
                 it.fault('reorder')
             if tag.get('refit'):
                 it.fault('refit')
+            if tag.get('layout', 'C') != 'C':
+                it.probe('noncontiguous_opd')
             if not v['ok']:
                 it.violate('C04.equiv', {'carrier': carrier, 'square_pixels': tag.get('square', True), 'segmented': tag.get('segmented', False)},
                            v['detail'], i)
@@ -786,6 +858,8 @@ class TiltHooks(Hooks):
         elif fn == 'check.trace':
             it.probe('check:trace')
             it.probe('trace_order:%d/%d' % tuple(v['order']))
+            if v.get('negative_arc'):
+                it.probe('trace_negative_arc' + ('_high_order' if v['order'][0] > 1 else ''))
             if not v['on_trace']:
                 it.violate('C04.trace', {'what': 'off-trace', 'trace_order': min(v['order'][0], 2), 'dispersion_order': min(v['order'][1], 2)}, v['detail'], i)
             if not v['arc_ok']:
@@ -813,8 +887,9 @@ class TiltScenario(OpticsBase):
     must_hit = ['subpixel_only', 'beyond_output', 'nonsquare_pixel', 'per_segment_tilt', 'three_elements', 'carrier:tilt-planes',
                 'carrier:wavefront-tilt', 'carrier:fit', 'carrier:refit', 'carrier:dispersive', 'carrier:wavefront-tilt+fit',
                 'carrier:tilt-planes-before-pupil', 'carrier:fan-out', 'carrier:same-wavefront-resampled', 'carrier:same-tilt-twice',
-                'trace_order:1/1']
-    probe_names = must_hit + ['coldwarm_audit', 'no_common_samples', 'trace_order:2/1', 'trace_order:1/2']
+                'trace_order:1/1', 'carrier:fit-inplace', 'noncontiguous_opd', 'carrier:dispersive-high-order', 'trace_negative_arc',
+                'trace_negative_arc_high_order', 'dispersive_blue', 'dispersive_red']
+    probe_names = must_hit + ['coldwarm_audit', 'no_common_samples', 'trace_order:2/1', 'trace_order:1/2', 'trace_order:2/2', 'trace_order:3/1']
 
     def program(self, rng, world, force=None):
         force = force or {}
@@ -930,11 +1005,23 @@ class TiltScenario(OpticsBase):
             b.E('check.equiv', ['@' + ic, '@' + ie, '@' + wc_pre, '@' + we_pre], t=dict(base_t, carrier='wavefront-tilt'), tag='c')
         # ---- carrier: fit_tilt of the ramp-carrying OPD (per segment)
         if rng.random() < 0.8 or force:
-            pf = b.E('Pupil', None, dict(pkw, opd='@' + o_all, mask='@' + m), tag='p')
+            lay = force.get('layout') or rng.choice(['C', 'C', 'F', 'T', 'strided', 'crop'])
+            o_fit = o_all if lay == 'C' else b.E('h.layout', ['@' + o_all, lay], tag='o')
+            a_fit = amp if lay == 'C' or rng.random() < 0.5 else b.E('h.layout', ['@' + amp, rng.choice(['F', 'T', 'strided'])], tag='a')
+            pf = b.E('Pupil', None, dict(pkw, amplitude='@' + a_fit, opd='@' + o_fit, mask='@' + m), tag='p')
             q = b.E('Plane.fit_tilt', ['@' + pf], tag='q')
-            b.E('check.fit', ['@' + pf, '@' + q], t={'segmented': k > 1}, tag='c')
+            b.E('check.fit', ['@' + pf, '@' + q], t={'segmented': k > 1, 'layout': lay}, tag='c')
             wq_pre, iq = image(q)
-            b.E('check.equiv', ['@' + iq, '@' + ie, '@' + wq_pre, '@' + we_pre], t=dict(base_t, carrier='fit'), tag='c')
+            b.E('check.equiv', ['@' + iq, '@' + ie, '@' + wq_pre, '@' + we_pre], t=dict(base_t, carrier='fit', layout=lay), tag='c')
+            if lay != 'C' and (rng.random() < 0.6 or force):
+                # the documented in-place form on a private plane whose OPD is a non-contiguous caller array
+                o_in = b.E('h.layout', ['@' + o_all, lay], tag='o')
+                pin = b.E('Pupil', None, dict(pkw, opd='@' + o_in, mask='@' + m), tag='p')
+                pin0 = b.E('Plane.copy', ['@' + pin], tag='p')
+                qin = b.E('Plane.fit_tilt', ['@' + pin], {'inplace': True}, tag='q')
+                b.E('check.fit', ['@' + pin0, '@' + qin], t={'segmented': k > 1, 'layout': lay, 'inplace': True}, tag='c')
+                wqi_pre, iqi = image(qin)
+                b.E('check.equiv', ['@' + iqi, '@' + ie, '@' + wqi_pre, '@' + we_pre], t=dict(base_t, carrier='fit-inplace', layout=lay), tag='c')
         # ---- carriers combined: a fitted pupil (per-segment tilt recorded) met by a wavefront that already carries tilt,
         #      and Tilt planes applied BEFORE the pupil ("all orderings of tilt elements in a plane chain")
         if rng.random() < 0.6 or force:
@@ -975,43 +1062,56 @@ class TiltScenario(OpticsBase):
                 b.E('check.equiv', ['@' + ij, '@' + iej, '@' + wj, '@' + wej], t=dict(base_t, carrier='fan-out'), tag='c')
         # ---- carrier: fit, update the OPD, fit again (history)
         if rng.random() < 0.5 or force:
-            oc = b.E('np.copy', ['@' + o_rs], tag='o')
+            oc = b.E('np.copy', ['@' + o_rs], tag='o') if rng.random() < 0.6 else b.E('h.layout', ['@' + o_rs, rng.choice(['F', 'T', 'strided', 'crop'])], tag='o')
             pr = b.E('Pupil', None, dict(pkw, opd='@' + oc, mask='@' + m), tag='p')
             prr = b.E('h.refit', ['@' + pr, '@' + rg], tag='q')
             wr_pre, ir = image(prr)
             b.E('check.equiv', ['@' + ir, '@' + ie, '@' + wr_pre, '@' + we_pre], t=dict(base_t, carrier='refit', refit=True), tag='c')
-        # ---- carrier: first-order dispersive elements (their displacement expressed as the equivalent angle in the twin)
-        if (rng.random() < 0.5 or force) and mag != 'beyond':
-            a = rng.choice([0.0, 0.5, -1.2])
-            bb = rng.choice([0.0, 2e-6])
-            d1 = rng.choice([1e-3, -2e-3])
-            X = rng.uniform(-4, 4) * duc / os_
-            dist = X * np.sqrt(1 + a * a)
-            d0 = ph['wl'] - d1 * dist
-            Y = a * X + bb
-            dsp = b.E('DispersiveTilt', None, {'trace': [a, bb], 'dispersion': [d1, d0]}, tag='d')
+        # ---- carrier: dispersive elements of first and higher order, red and blue of the reference wavelength (negative arc
+        #      lengths); the twin carries the displacement of the statement's clause, solved independently, as an OPD ramp
+        if (rng.random() < 0.6 or force) and mag != 'beyond':
+            order = force.get('disp_order') or rng.choice(['1/1', '1/1', '2/1', '1/2', '2/2', '3/1'])
+            tr_o, dp_o = (int(x) for x in order.split('/'))
+            X = rng.choice([-1, 1]) * rng.uniform(0.3, 4) * duc / os_          # wanted displacement along x, metres
+            d1 = rng.choice([1e-3, -2e-3, 1e-4])
+            if tr_o == 1:
+                tr = [rng.choice([0.0, 0.5, -1.2]), rng.choice([0.0, 2e-6])]
+            elif tr_o == 2:
+                tr = [rng.choice([2.0, 50.0, -30.0]), rng.choice([0.3, -1.0, 0.0]), rng.choice([0.0, 1e-6])]
+            else:
+                tr = [rng.choice([1e4, -3e4]), rng.choice([2.0, -20.0]), rng.choice([0.3, -0.7]), 0.0]
+            dist = X * np.sqrt(1 + tr[-2] ** 2)                                 # arc length, to first order
+            dp = [d1, ph['wl'] - d1 * dist] if dp_o == 1 else [rng.choice([0.5, 1e-3, -0.2]), d1, ph['wl'] - d1 * dist]
+            if not dispersion_well_posed(dp, ph['wl']):
+                dp = [d1, ph['wl'] - d1 * dist]
+                dp_o = 1
+                order = '%d/1' % tr_o
+            dsp = b.E('DispersiveTilt', None, {'trace': tr, 'dispersion': dp}, tag='d')
             b.E('check.trace', ['@' + dsp, ph['wl']], tag='c')
-            # equivalent angle: Tilt(x, y) displaces by (-z*y, -z*x) metres in (x, y)
-            ex, ey = -Y / z, -X / z
-            rd = b.E('h.segment_ramp', ['@' + gm, [[ex, ey]], dx], tag='rd')
+            rd = b.E('h.dispersive_ramp', ['@' + gm, tr, dp, ph['wl'], z, dx], tag='rd')
             o_d = b.E('np.add', ['@' + o_all, '@' + rd], tag='o')
             ped = b.E('Pupil', None, dict(pkw, opd='@' + o_d, mask='@' + gm), tag='p')
             wed_pre, ied = image(ped)
             els = tids + [dsp]
             rng.shuffle(els)
             wpre_d, idd = image(pb, extra=els)
-            b.E('check.equiv', ['@' + idd, '@' + ied, '@' + wpre_d, '@' + wed_pre], t=dict(base_t, carrier='dispersive', permuted=True), tag='c')
-            b.E('check.shift', ['@' + wpre_d, [['tilt', t[0], t[1]] for t in parts] + [['disp', [a, bb], [d1, d0]]], z, du, os_],
-                t={'n_elements': nel + 1, 'square': square, 'kinds': 'tilt+dispersive'}, tag='c')
+            high = tr_o > 1 or dp_o > 1
+            b.E('check.equiv', ['@' + idd, '@' + ied, '@' + wpre_d, '@' + wed_pre], {'rtol': 1e-5} if high else None,
+                t=dict(base_t, carrier='dispersive-high-order' if high else 'dispersive', permuted=True,
+                       flags=flags + ['dispersive_' + ('blue' if dist * d1 < 0 else 'red'), 'dispersive_order:' + order]), tag='c')
+            b.E('check.shift', ['@' + wpre_d, [['tilt', t[0], t[1]] for t in parts] + [['disp', tr, dp]], z, du, os_],
+                t={'n_elements': nel + 1, 'square': square, 'kinds': 'tilt+dispersive' + ('-high-order' if high else '')}, tag='c')
         # ---- higher-order dispersive elements: only the trace clause
         if rng.random() < 0.15 or force.get('high_order'):
-            off = rng.choice([3e-9, 5e-8])
-            d1 = rng.choice([1e-3, 1e-4, 1e-5])
+            off = rng.choice([3e-9, 5e-8, -3e-9, -5e-8])
+            d1 = rng.choice([1e-3, 1e-4, 1e-5, -1e-3])
             tr = rng.choice([[rng.choice([2.0, 50.0]), rng.choice([0.3, -1.0]), 0.0], [0.5, 0.0]])
             dp = rng.choice([[rng.choice([0.5, 1e-3]), d1, ph['wl'] - off], [d1, ph['wl'] - off]]) if len(tr) == 2 else \
                 rng.choice([[d1, ph['wl'] - off], [rng.choice([0.5, 1e-3]), d1, ph['wl'] - off]])
             if len(tr) == 2 and len(dp) == 2:
                 tr = [2.0, 0.3, 0.0]
+            if not dispersion_well_posed(dp, ph['wl']):
+                dp = [d1, ph['wl'] - off]
             if rng.random() < 0.4 or force.get('high_order'):
                 # legal zero-padded coefficient lists: formally of higher order, effectively first order
                 dz = b.E('DispersiveTilt', None, {'trace': [0.0, rng.choice([0.5, -1.2]), rng.choice([0.0, 1e-4])],
@@ -1034,11 +1134,11 @@ class TiltScenario(OpticsBase):
     def prelude(self, verif_seed):
         import random
         runs = []
-        cases = [{'S': [7, 8], 'seg': True, 'square': True, 'mag': 'sub', 'nel': 3, 'os': 2},
-                 {'S': [6, 9], 'seg': False, 'square': False, 'mag': 'small', 'nel': 2, 'os': 1},
-                 {'S': [8, 8], 'seg': True, 'square': False, 'mag': 'medium', 'nel': 3, 'os': 3},
-                 {'S': [5, 6], 'seg': False, 'square': True, 'mag': 'beyond', 'nel': 1, 'os': 1},
-                 {'S': [9, 7], 'seg': True, 'square': True, 'mag': 'small', 'nel': 3, 'os': 2, 'high_order': True}]
+        cases = [{'S': [7, 8], 'seg': True, 'square': True, 'mag': 'sub', 'nel': 3, 'os': 2, 'layout': 'F', 'disp_order': '2/1'},
+                 {'S': [6, 9], 'seg': False, 'square': False, 'mag': 'small', 'nel': 2, 'os': 1, 'layout': 'strided', 'disp_order': '1/1'},
+                 {'S': [8, 8], 'seg': True, 'square': False, 'mag': 'medium', 'nel': 3, 'os': 3, 'layout': 'T', 'disp_order': '1/2'},
+                 {'S': [5, 6], 'seg': False, 'square': True, 'mag': 'beyond', 'nel': 1, 'os': 1, 'layout': 'crop'},
+                 {'S': [9, 7], 'seg': True, 'square': True, 'mag': 'small', 'nel': 3, 'os': 2, 'high_order': True, 'layout': 'crop', 'disp_order': '2/2'}]
         for j, force in enumerate(cases):
             for rep in range(2):
                 rng = random.Random(verif_seed * 982451653 + j * 10 + rep)
